@@ -19,7 +19,8 @@ COQ_KEY = {'guards': 'KGuards', 'unless': 'KUnless', 'before': 'KBefore', 'after
 def _ids(l, rnd=None):
     if len(l) == 1 and rnd is not None and rnd.random() < 0.4:
         return l[0]
-    return '[' + ', '.join(l) + ']'
+    tc = ',' if (l and rnd is not None and rnd.random() < 0.25) else ''      # `[a, b,]`
+    return '[' + ', '.join(l) + tc + ']'
 
 
 def dsl_sitem(it, top, rnd=None):
@@ -33,7 +34,8 @@ def dsl_sitem(it, top, rnd=None):
         s = 'superstate ' + it[1]
         if it[2] is not None:
             s += '(%s)' % it[2]
-        return s + ' { ' + ', '.join(dsl_sitem(x, False, rnd) for x in it[3]) + ' }'
+        tc = ',' if (it[3] and rnd is not None and rnd.random() < 0.25) else ''
+        return s + ' { ' + ', '.join(dsl_sitem(x, False, rnd) for x in it[3]) + tc + ' }'
     if k == 'initial':
         return 'initial: ' + it[1]
     if k == 'unknown':
@@ -61,7 +63,8 @@ def dsl_eentry(e, rnd=None):
     if k == 'list':
         return '%s: %s' % (e[1], _ids(e[2], rnd))
     if k == 'transition':
-        return 'transition: { ' + ', '.join(dsl_tentry(t, rnd) for t in e[1]) + ' }'
+        tc = ',' if (e[1] and rnd is not None and rnd.random() < 0.25) else ''
+        return 'transition: { ' + ', '.join(dsl_tentry(t, rnd) for t in e[1]) + tc + ' }'
     if k == 'unknown':
         return e[1] + ': Zz'
     raise ValueError(e)
